@@ -128,6 +128,18 @@ class Tools:
         if detail:
             env["GC_DETAIL"] = "x"
         cmd, cwd = self.route_cmd(route, p)
+        if route in ("interp-as", "interp-nogc"):
+            # `aldor -ginterp p.as' writes and removes files beside the source (p.ao): concurrent runs of the same
+            # program must not share a directory
+            tmp = os.path.join(cwd, "r%d" % next(_uniq))
+            os.makedirs(tmp)
+            try:
+                for fn in os.listdir(cwd):
+                    if fn.endswith(".as"):
+                        os.symlink(os.path.join(cwd, fn), os.path.join(tmp, fn))
+                return runb(cmd, cwd=tmp, env=env, timeout=timeout)
+            finally:
+                shutil.rmtree(tmp, ignore_errors=True)
         return runb(cmd, cwd=cwd, env=env, timeout=timeout)
 
 
@@ -491,11 +503,15 @@ def gloop_stage(rep, tools, rng, tier, base):
         lines, exp = gloop_session(random.Random(seed))
         jobs.append((seed, lines, exp))
     stats = collections.Counter()
+    t_lim = 40 if quick else 300                 # a session takes 0.5 s, a few seconds under forced collections
+    stage_deadline = time.time() + (60 if quick else 900)
 
     def one(job):
         seed, lines, exp = job
         d = "%s/gl%d" % (base, next(_uniq))
-        ref = gloop_run(tools, gloop_text(lines, ()), d, nogc=True)       # reference: collector off
+        if time.time() > stage_deadline:
+            return job, None, [("skip", None, None, "not run: the sessions before it used up the stage's time")]
+        ref = gloop_run(tools, gloop_text(lines, ()), d, nogc=True, timeout=t_lim)       # reference: collector off
         res = []
         if ref["timeout"] or ref["rc"] != 0:
             return job, ref, [("skip", None, None, "collector-off session fails: rc %s %r" % (ref["rc"], ref["err"][-200:]))]
@@ -506,16 +522,20 @@ def gloop_stage(rep, tools, rng, tier, base):
                 pos += 1
             if pos == len(got):
                 return job, ref, [("skip", None, None, "collector-off session does not print the expected line %r" % e)]
-        nat = gloop_run(tools, gloop_text(lines, ()), d)                   # natural collections only
+        nat = gloop_run(tools, gloop_text(lines, ()), d, timeout=t_lim)     # natural collections only
         res.append(("run", (), None, classify(nat, ref)))
         allpos = tuple(range(3, len(lines)))
         for sched in scheds:
-            r = gloop_run(tools, gloop_text(lines, allpos), d, sched=sched, timeout=300)
+            if time.time() > stage_deadline:
+                break
+            r = gloop_run(tools, gloop_text(lines, allpos), d, sched=sched, timeout=t_lim)
             c = classify(r, ref)
             res.append(("run", allpos, sched, c))
             if c and c[0] != "hang":           # which single collection point is enough?
                 for i in allpos:
-                    r1 = gloop_run(tools, gloop_text(lines, (i,)), d, sched=sched, timeout=300)
+                    if time.time() > stage_deadline:
+                        break
+                    r1 = gloop_run(tools, gloop_text(lines, (i,)), d, sched=sched, timeout=t_lim)
                     c1 = classify(r1, ref)
                     if c1 and c1[0] != "hang":
                         res.append(("run", (i,), sched, c1))
@@ -596,8 +616,8 @@ def make_jobs(progs, tier, rng):
         c = [p for p in usable if rt in p.get("est", {}) and p["family"] in fam]
         return [id(p) for p in sorted(c, key=lambda p: est_cost(p, rt, 1))[:n]]
     int_full = cheapest("interp-ao", ("hand",), 1 if quick else 4)
-    int_some = cheapest("interp-ao", ("hand", "mini"), 3 if quick else 14)
-    as_some = cheapest("interp-as", ("hand", "mini", "repo"), 3 if quick else 30)
+    int_some = cheapest("interp-ao", ("hand", "mini", "corpus"), 6 if quick else 14)
+    as_some = cheapest("interp-as", ("hand", "mini", "repo", "corpus"), 2 if quick else 30)
 
     def add(p, rt, k, js, prio, cap):
         c = est_cost(p, rt, k)
@@ -605,23 +625,28 @@ def make_jobs(progs, tier, rng):
             jobs.append({"p": p, "route": rt, "k": k, "j": j, "cost": c, "prio": prio, "too_slow": c > cap})
     for p in usable:
         hand = p["family"] in ("hand", "corpus")
+        # quick tier: the full small-k enumeration goes to the corpus and to the one-shape-per-program part of the
+        # hand family (every shape present whatever the seed); the other programs get one offset per k
+        core = p["family"] == "corpus" or (p["family"] == "hand" and len(p["shapes"]) == 1 and str(p.get("pseed", "")).startswith("s"))
         for k in ks:
             if "exe" in p["est"]:
                 if quick:
-                    full = 5 if hand else 1
-                    add(p, "exe", k, js_for(rng, k, full, 2 if hand else 1), 0 if (k <= 5 and hand) or k == 1 else 1, cap_exe)
+                    add(p, "exe", k, js_for(rng, k, 5 if core else 1, 1), 0 if k == 1 or core or k >= 17 else 1, cap_exe)
                 else:
                     add(p, "exe", k, js_for(rng, k, 8 if hand else 2, 6 if hand else 2), 0 if k <= 8 else 1, cap_exe)
             if "interp-ao" in p["est"]:
                 if id(p) in int_full:
-                    add(p, "interp-ao", k, js_for(rng, k, 5 if quick else 6, 1 if quick else 4), 0 if k <= 5 else 1, cap_int)
+                    if quick:
+                        add(p, "interp-ao", k, js_for(rng, k, 3, 2 if k == 5 else 1), 0, cap_int)
+                    else:
+                        add(p, "interp-ao", k, js_for(rng, k, 6, 4), 0 if k <= 5 else 1, cap_int)
                 elif id(p) in int_some and k > 1:
-                    add(p, "interp-ao", k, js_for(rng, k, 0, 1 if quick else 2), 1, cap_int)
-                elif k >= 17:
+                    add(p, "interp-ao", k, js_for(rng, k, 0, 1 if quick else 2), 0 if quick and k >= 17 else 1, cap_int)
+                elif k >= 17 and not quick:
                     add(p, "interp-ao", k, js_for(rng, k, 0, 1), 1, cap_int)
             if "interp-as" in p["est"] and k >= (100 if quick else 50) and id(p) in as_some:
-                add(p, "interp-as", k, js_for(rng, k, 0, 1 if quick else 2), 1, cap_int)
-        if "interp-as" in p["est"] and quick:       # the compile phase under collection as well (cheap at k = 1000)
+                add(p, "interp-as", k, js_for(rng, k, 0, 1 if quick else 2), 0 if quick else 1, cap_int)
+        if "interp-as" in p["est"] and quick and hand:       # the compile phase under collection as well (cheap at k = 1000)
             add(p, "interp-as", 1000, js_for(rng, 1000, 0, 1), 1, cap_int)
     return jobs
 
